@@ -24,7 +24,7 @@ cache transaction: which shared caches the manager holds after every run (`cache
 import json, os, re, time
 
 SPEC = {
-    "lean_modules": ["SemaModel.C07.Props", "SemaModel.C07.ObserveProps"],
+    "lean_modules": ["SemaModel.C07.Props", "SemaModel.C07.ObserveProps", "SemaModel.C07.CachePins"],
     "lean_dirs": ["SemaModel/C07"],
     "harness": "c07",
     "harness_args": {"quick": ["-tier", "quick"], "thorough": ["-tier", "thorough"]},
@@ -35,7 +35,7 @@ SPEC = {
         "Sema.C07.C07_atomic", "Sema.C07.C07_error_observe", "Sema.C07.C07_success_keeps_written",
         "Sema.C07.C07_fault_reports_error", "Sema.C07.C07_rejection_reports_error", "Sema.C07.C07_clean_run_succeeds",
         "Sema.C07.C07_entry_points_atomic", "Sema.C07.C07_crash_is_write_branch_assumed",
-        "Sema.C07.C07_error_paths_commit_fail",
+        "Sema.C07.C07_error_paths_commit_fail", "Sema.C07.C07_cache_protocol_pinned",
         "Sema.C07.C07_commit_fault_atomic", "Sema.C07.C07_commit_by_closure_flag_not_atomic",
         # what C07 proves beyond its assumption (ObserveProps.lean)
         "Sema.C07.C07_observe_atomic", "Sema.C07.C07_observe_error_any_program", "Sema.C07.C07_observe_history",
